@@ -38,7 +38,8 @@ def fresh_for(key, naming, rng):
         return "zqt9"
     old = naming[key]
     n = rng.choice([k for k in (1, 2, 3) if k != len(old)])
-    return ["zqa", "zqb", "zqc"][:n]
+    # also names whose humps are single letters or carry digits (ZqAB, Zq9X2)
+    return rng.choice([["zqa", "zqb", "zqc"], ["zqa", "zqb", "zqc"], ["zq", "a", "b"], ["zq9", "x2", "y"]])[:max(n, 2) if rng.random() < 0.5 else n]
 
 
 def forms(key, old, new):
